@@ -70,6 +70,8 @@ type c04Obs struct {
 	Extra       string `json:"extra,omitempty"`
 }
 
+var c04ClientErrTexts = []string{"verif: client error", "", "\n", "  \r\n\t\n", "first line\n\nthird line\n", " "}
+
 func c04Run(s *c04Scn, order []int, fbFirst bool) c04Obs {
 	n := len(s.Cases)
 	names := make([]string, n)
@@ -99,7 +101,15 @@ func c04Run(s *c04Scn, order []int, fbFirst bool) c04Obs {
 		case "assertFail":
 			results.assert(names[i], def(i), &conformancev1.ClientResponseResult{Payloads: []*conformancev1.ConformancePayload{{Data: []byte("other")}}})
 		case "clientErr":
-			results.failed(names[i], &conformancev1.ClientErrorResult{Message: "verif: client error"})
+			// the text of a client-reported error is the client's business: any text, including none at all
+			salt := i + len(order)
+			for _, c := range s.Cases {
+				salt += len(c.Fate)*3 + len(c.Mark)
+			}
+			if fbFirst {
+				salt++
+			}
+			results.failed(names[i], &conformancev1.ClientErrorResult{Message: c04ClientErrTexts[salt%len(c04ClientErrTexts)]})
 		case "setupErr":
 			results.failedToStart([]*conformancev1.TestCase{def(i)}, errors.New("error starting server: verif"))
 		case "noResult":
